@@ -163,6 +163,22 @@ CLAIMS = {
                  "separate specification theorem."),
         "ref": "DESIGN.md §4 C04",
     },
+    "C15": {
+        "technique": "Lean 4 theorems: parser correctness for the whole arithmetic grammar E/T/F (mutual structural induction over derivations against the well-founded mutual recursive-descent model: precedence, left associativity, brackets, calls; atoms for literals/columns/quoted/negated), evaluator compositionality, memo locality and frame theorems (mutual induction over Expr) giving independence of a column from unrelated columns + CLI correspondence + independent IEEE-754 evaluation in Python + select-list permutation/alone metamorphic oracle",
+        "text": ("Theorems: for EVERY derivation of E ::= E(+|-)T | T, T ::= T(*|/|%)F | F, F ::= atom | (E) | fn(E) — any depth and length — "
+                 "parse_add_sub on its token sequence returns the tree the derivation denotes (same-level operators nested to the left, "
+                 "multiplicative below additive, brackets overriding) and leaves exactly the following tokens; numbers, columns, quoted text "
+                 "and their negations are atoms. Evaluation: the value of l op r is calc of the values of l and r; a literal never reads "
+                 "the per-row cache (D61 fixed); -column is 0 - column (D39 fixed); the value of an expression depends on the cache only "
+                 "through the display texts of its own sub-expressions (locality), and an evaluation writes only those keys (frame), hence "
+                 "evaluating any other columns whose keys are disjoint first does not change a column's value; a WHERE comparison evaluates "
+                 "both operands and compares the values. PARTIAL: when two columns share a sub-expression the second is answered from the "
+                 "cache with the first value's text; that this text denotes the same number is decided by correspondence and the "
+                 "permutation/alone oracle, not proved (it is false for booleans used in arithmetic, outside the quantifier). The lexer's "
+                 "operator/expression disambiguation is modelled and compared in-process (C10) but not proved. Known finding D62: the "
+                 "cache key (display text) does not quote literals (counterexample theorem)."),
+        "ref": "DESIGN.md §4 C15",
+    },
     "C17": {
         "technique": "Lean 4 theorems by mutual structural induction over trees with unlistable directories (walker result = check_file folded over the visible events; error state gains exactly the failing directories; visible events = healed tree's events minus entries with an unlistable proper ancestor; rows depend on events only), content-fault locality over the ~80-arm column evaluator + CLI correspondence run as uid 65534 + fault injection (pipe closed at byte k, strace EPIPE at write k) with a no-crash/status oracle",
         "category": "proof",
